@@ -108,7 +108,10 @@ impl Property for C15 {
                 name: "random-nevra",
                 cases: tier.pick(500_000, 3_000_000),
                 strat: Arc::new(|| {
-                    ("[a-z0-9][a-z0-9+._-]{0,12}", prop_oneof![Just(String::new()), "[0-9]{1,4}"], "[A-Za-z0-9._+~^]{1,10}", "[A-Za-z0-9._+~^]{1,10}", "[a-z0-9_]{1,8}")
+                    // components of ordinary length and, now and then, long ones (module builds and
+                    // snapshot releases: tens of characters per component, hundreds in total)
+                    let comp = || prop_oneof![5 => "[A-Za-z0-9._+~^]{1,10}", 1 => "[A-Za-z0-9._+~^]{20,70}", 1 => "[0-9]{1,3}(\\.[0-9a-z+]{1,12}){3,12}"];
+                    (prop_oneof![4 => "[a-z0-9][a-z0-9+._-]{0,12}", 1 => "[a-z0-9]{1,8}(-[a-z0-9.+_]{1,10}){1,6}"], prop_oneof![Just(String::new()), "[0-9]{1,4}", "[0-9]{5,12}"], comp(), comp(), prop_oneof![6 => "[a-z0-9_]{1,8}", 1 => "[a-z0-9_]{20,40}"])
                         .prop_map(|(name, epoch, version, release, arch)| C15Case::Nevra { name, epoch, version, release, arch })
                         .boxed()
                 }),
